@@ -48,6 +48,7 @@ POOL = [
     ('1e-200', 1e-200, '1E-200', 'num:tiny'), ('1024', 1024.0, '1024', 'num:pos'),
     ('t1', '1', '"1"', 'text:num'), ('t2.5', '2.5', '"2.5"', 'text:num'),
     ('t-3', '-3', '"-3"', 'text:num'), ('t1E+2', '1E+2', '"1E+2"', 'text:num'),
+    ('t1e3', '1e3', '"1e3"', 'text:num'), ('-0', -0.0, '(-0.0)', 'num:zero'),
     ('tpad', ' 4 ', '" 4 "', 'text:pad'), ('tabc', 'abc', '"abc"', 'text:alpha'),
     ('tA', 'A', '"A"', 'text:alpha'), ('ta', 'a', '"a"', 'text:alpha'),
     ('tB', 'B', '"B"', 'text:alpha'), ('t1_0', '1_0', '"1_0"', 'text:pyfloat'),
@@ -118,7 +119,9 @@ class Paths:
                 args.append(Ranges().push(ref, [[sh.EMPTY]]))
             else:
                 texts.append(e[2])
-        if op == 'u-':
+        if op in SIGN_RUNS:
+            f = '=%s%s' % (op[1:], texts[0])
+        elif op == 'u-':
             f = '=-%s' % texts[0]
         elif op == 'u+':
             f = '=+%s' % texts[0]
@@ -132,7 +135,9 @@ class Paths:
     def cell(self, op, values):
         key = op
         if key not in self._cells:
-            if op == 'u-':
+            if op in SIGN_RUNS:
+                f = '=%sA1' % op[1:]
+            elif op == 'u-':
                 f = '=-A1'
             elif op == 'u+':
                 f = '=+A1'
@@ -196,7 +201,7 @@ def judge(ctx, op, values, path, formula, run):
             and not rs.text_order_certain(*values):
         ctx.count('judge.not-certain')
         return got
-    exact = op in ('+', '-', '*', '/', 'u-', 'u+', '%')
+    exact = op in ('+', '-', '*', '/', 'u-', 'u+', '%') + SIGN_RUNS
     if not xl.in_accept(got, acc, exact=exact):
         ctx.violation('%s:%s:%s->%s' % (
             op, ','.join(map(_vclass, values)), _oclass(got),
@@ -215,7 +220,8 @@ def _pool_id(v):
         ev = _val(e)
         if ev is v or (type(ev) is type(v) and ev == v and not isinstance(v, float)):
             return e[0]
-        if isinstance(v, float) and isinstance(ev, float) and ev == v:
+        if isinstance(v, float) and isinstance(ev, float) and ev == v and \
+                math.copysign(1, ev) == math.copysign(1, v):
             return e[0]
     return repr(v)
 
@@ -255,8 +261,13 @@ def check_case(case, ctx, paths=None):
     return got
 
 
+SIGN_RUNS = ('u--', 'u- -', 'u+-', 'u-+', 'u---', 'u++')   # runs of signs: `=--x`
+
+
 def _lit_text(op, entries):
     t = [e[2] or 'AB'[i] + '1' for i, e in enumerate(entries)]
+    if op in SIGN_RUNS:
+        return '=%s%s' % (op[1:], t[0])
     if op == 'u-':
         return '=-%s' % t[0]
     if op == 'u+':
@@ -269,6 +280,8 @@ def _lit_text(op, entries):
 
 
 def _cell_text(op):
+    if op in SIGN_RUNS:
+        return '=%sA1' % op[1:]
     return {'u-': '=-A1', 'u+': '=+A1', '%': '=A1%'}.get(op, '=A1%sB1' % op)
 
 
@@ -332,7 +345,7 @@ def run(spec, ctx):
         ctx.sample({'formula': _lit_text('+', [ea, eb]), 'path': path})
     elif k == 'unary':
         for e in POOL:
-            for op in ('u-', 'u+', '%'):
+            for op in ('u-', 'u+', '%') + SIGN_RUNS:
                 for path in ('literal', 'cell', 'numpy'):
                     case = {'kind': 'op', 'op': op, 'path': path,
                             'operands': [e[0]]}
